@@ -131,10 +131,13 @@ class Mock : public DiscoverableRDMControllerInterface {
     for (int i = 0; i < r.fr; i++) frames.push_back(RDMFrame(fd, 2));
     RDMResponse *resp = NULL;
     if (r.ty != 9) {
-      vector<uint8_t> d(1 + r.len, (uint8_t) r.fill);
-      d[0] = (uint8_t) id;
+      // the id of the answered request goes in front of the data, unless there is no data at all
+      // (e.g. the empty last frame of an ACK_OVERFLOW sequence)
+      vector<uint8_t> d;
+      if (r.len > 0) { d.assign(1 + r.len, (uint8_t) r.fill); d[0] = (uint8_t) id; }
       resp = new RDMResponse(UID(1, r.src), UID(2, 2), 0, r.ty, r.mc, 0,
-                             static_cast<RDMCommand::RDMCommandClass>(r.cc), 296, d.data(), d.size());
+                             static_cast<RDMCommand::RDMCommandClass>(r.cc), 100 + r.fill % 7,
+                             d.empty() ? NULL : d.data(), d.size());
       vector<uint8_t> &g = W->given[id];
       g.insert(g.end(), d.begin(), d.end());
     }
@@ -211,7 +214,9 @@ static void OnComplete(ReqCtx *ctx, RDMReply *reply) {
   {
     std::ostringstream c;
     c << id << ":" << kind << ":" << static_cast<int>(reply->StatusCode()) << ":";
-    if (rs) c << static_cast<int>(rs->ResponseType()) << ":" << rle(rs->ParamData(), rs->ParamDataSize());
+    if (rs) c << static_cast<int>(rs->ResponseType()) << "." << rs->SourceUID().DeviceId() << "."
+              << static_cast<int>(rs->CommandClass()) << "." << static_cast<int>(rs->MessageCount()) << "."
+              << rs->ParamId() << ":" << rle(rs->ParamData(), rs->ParamDataSize());
     else c << "n";
     W->comps.push_back(c.str());
   }
